@@ -35,7 +35,8 @@ def gen(ctx, prop):
                 (ALLOPS, 2, 1, 4, 9, False, 300)],
         "C07": [('{"enq", "sent", "recv", "disc", "acc", "blk", "unb"}', 1, 1, 5, 7, False, 500),
                 ('{"enq", "sent", "recv", "disc", "acc", "blk", "unb"}', 2, 1, 6, 9, False, 400)],
-        "C13": [('{"en", "dis", "rs"}', 1, 1, 3, 7, True, 500), ('{"en", "dis", "rs", "enq", "blk"}', 1, 1, 5, 10, True, 400)],
+        "C13": [('{"en", "dis", "rs"}', 1, 1, 3, 7, True, 400), ('{"en", "dis", "rs", "enq", "blk"}', 1, 1, 5, 10, True, 300),
+                ('{"msg"}', 1, 1, 4, 9, True, 300)],
     }[prop]
     mult = 1 if quick else 8
     scripts = []
@@ -48,7 +49,8 @@ def gen(ctx, prop):
         r = ctx.tlc("GenGroupLog", "Gen_GroupLog.cfg", name="sim_%s_%d" % (prop, k), workers=1, simulate="num=%d" % (walks * mult),
                     depth=ml + 2, consts=consts, timeout=1500, heap="8g")
         hs = r.printed.get("SCRIPT", [])
-        sc = vf.scripts_from_tlc(hs, cfg={"contacts": nc, "groups": ng, "plan": k}, start_id=len(scripts), limit=walks * mult, rng=ctx.rng)
+        sc = vf.scripts_from_tlc(hs, cfg={"contacts": nc, "groups": ng, "plan": k, "log": "message" if ops == '{"msg"}' else "metadata"},
+                                 start_id=len(scripts), limit=walks * mult, rng=ctx.rng)
         scripts += sc
     for i, s in enumerate(scripts):
         s["id"] = i
